@@ -13,6 +13,30 @@ def strip(text):
     return SGR_RE.sub("", text)
 
 
+EMPTY_RUN_RE = re.compile("\x1b\\[[0-9;:]+m\x1b\\[0m")
+
+
+def drop_empty_runs(text):
+    """remove zero-length coloured runs (prefix immediately followed by reset): they show nothing.
+    Lines produced one by one may keep them while the joined whole text drops them."""
+    return EMPTY_RUN_RE.sub("", text)
+
+
+def canon(text):
+    """canonical form of an escape-decorated text: the visible characters with their styles, runs of
+    equal style merged, zero-length runs gone.  Two strings with equal canon() show the same thing."""
+    out = []
+    cur = None
+    for ch, st in parse_cells(text):
+        if st != cur:
+            out.append(f"\x00{st!r}\x00")
+            cur = st
+        out.append(ch)
+        if ch == "\n":
+            cur = None
+    return "".join(out)
+
+
 def has_escape(text):
     return ESC in text
 
